@@ -4,6 +4,8 @@ package pubsub
 
 import (
 	pb "github.com/libp2p/go-libp2p-pubsub/pb"
+	"github.com/libp2p/go-libp2p/core/peer"
+	"github.com/libp2p/go-libp2p/core/protocol"
 )
 
 // ---- C11: splitting an oversized RPC loses nothing and respects the size limit ----------------------
@@ -200,3 +202,160 @@ func vpH_C11_split_ctl() {
 	vpOpt("unwind", 8)
 	vpSplitCheck(vpSplitShape{subs: 1, grafts: 1, iwant: 2, idontwant: 1}, 40, 24, 120)
 }
+
+// further element mixes: the indivisible extensions control message between divisible neighbours; PRUNE and IHAVE
+func vpH_C11_split_ext() {
+	vpOpt("unwind", 8)
+	vpSplitCheck(vpSplitShape{grafts: 1, iwant: 1, idontwant: 1, ext: true}, 40, 16, 90)
+}
+
+func vpH_C11_split_prune_ihave() {
+	vpOpt("unwind", 8)
+	vpSplitCheck(vpSplitShape{prunes: 1, ihave: 2, ext: true}, 40, 16, 90)
+}
+
+// sendrpc: the router's send path. An RPC that fits by itself picks up pending GRAFT retries and pending gossip before
+// it is sized; whatever is queued for the wire fits the limit, carries everything exactly once, and an element too
+// large to ever fit is dropped and traced as dropped.
+// vpRawRec: a raw tracer that summarises, at the moment the router reports an RPC as queued (SendRPC) or dropped
+// (DropRPC), what that RPC carries and how large it is.
+type vpRawRec struct {
+	msg       *pb.Message
+	graft     *pb.ControlGraft
+	ids       []string
+	nSent     int
+	maxSize   int
+	minSize   int
+	cm, cg    int
+	ci        [3]int
+	dropMsg   int
+	nDropped  int
+}
+
+func (t *vpRawRec) OnNewOutboundStream(p peer.ID, proto protocol.ID) {}
+func (t *vpRawRec) OnClosedOutboundStream(p peer.ID)                 {}
+func (t *vpRawRec) Join(topic string)                                {}
+func (t *vpRawRec) Leave(topic string)                               {}
+func (t *vpRawRec) Graft(p peer.ID, topic string)                    {}
+func (t *vpRawRec) Prune(p peer.ID, topic string)                    {}
+func (t *vpRawRec) ValidateMessage(msg *Message)                     {}
+func (t *vpRawRec) DeliverMessage(msg *Message)                      {}
+func (t *vpRawRec) RejectMessage(msg *Message, reason string)        {}
+func (t *vpRawRec) DuplicateMessage(msg *Message)                    {}
+func (t *vpRawRec) ThrottlePeer(p peer.ID)                           {}
+func (t *vpRawRec) RecvRPC(rpc *RPC)                                 {}
+func (t *vpRawRec) UndeliverableMessage(msg *Message)                {}
+func (t *vpRawRec) SendRPC(r *RPC, p peer.ID) {
+	t.nSent++
+	sz := r.Size()
+	if sz > t.maxSize {
+		t.maxSize = sz
+	}
+	if sz < t.minSize {
+		t.minSize = sz
+	}
+	for _, m := range r.Publish {
+		if m == t.msg {
+			t.cm++
+		}
+	}
+	for _, g := range r.GetControl().GetGraft() {
+		if g == t.graft {
+			t.cg++
+		}
+	}
+	for _, ih := range r.GetControl().GetIhave() {
+		for _, id := range ih.GetMessageIDs() {
+			for j := range t.ids {
+				if id == t.ids[j] && ih.GetTopicID() == vpT0 {
+					t.ci[j]++
+				}
+			}
+		}
+	}
+}
+func (t *vpRawRec) DropRPC(r *RPC, p peer.ID) {
+	t.nDropped++
+	for _, m := range r.Publish {
+		if m == t.msg {
+			t.dropMsg++
+		}
+	}
+}
+
+func vpSendRPC(retry bool, ni int, n int) {
+	vpOpt("unwind", 8)
+	params := vpSmallParams()
+	raw := &vpRawRec{minSize: 1 << 30}
+	nd := vpNewNode("self", vpNodeCfg{router: "gossipsub", params: &params, opts: []Option{WithRawTracer(raw)}})
+	gs, ps := nd.gs, nd.ps
+	p := peer.ID("p0")
+	q := nd.vpAddPeer(p, GossipSubID_v11, true)
+	gs.mesh[vpT0] = map[peer.ID]struct{}{p: {}}
+	limit := vpInt("limit", 48, 100)
+	ps.maxMessageSize = limit
+	topic := vpT0
+	msg := &pb.Message{Data: make([]byte, n), Topic: &topic} // (payload size concrete per variant; the limit is the solver variable)
+	out := &RPC{RPC: pb.RPC{Publish: []*pb.Message{msg}}}
+	graft := &pb.ControlGraft{TopicID: &topic}
+	if retry {
+		gs.control[p] = &pb.ControlMessage{Graft: []*pb.ControlGraft{graft}}
+	}
+	ids := []string{"ihave-id-0", "ihave-id-1", "ihave-id-2"}
+	if ni > 0 {
+		gs.gossip[p] = []*pb.ControlIHave{{TopicID: &topic, MessageIDs: append([]string{}, ids[:ni]...)}}
+	}
+	*raw = vpRawRec{minSize: 1 << 30, msg: msg, graft: graft, ids: ids}
+	gs.sendRPC(p, out, false)
+	q.queueMu.Lock()
+	queued := len(q.queue.priority) + len(q.queue.normal)
+	q.queueMu.Unlock()
+	msgAlone := (&RPC{RPC: pb.RPC{Publish: []*pb.Message{msg}}}).Size()
+	vpObserve("queued", queued)
+	vpObserve("dropped", raw.nDropped)
+	vpAssert(queued == raw.nSent && queued >= 1, "every queued RPC is reported as sent, and something is queued")
+	vpAssert(raw.maxSize <= limit, "gossipsub never queues an RPC larger than the limit for the wire")
+	vpAssert(raw.minSize > 0, "no empty RPC is queued")
+	// (which of the two cases can occur is fixed by the variant's payload size; an assertion is emitted only where reachable)
+	fits := msgAlone <= limit
+	if n < 45 || (n < 100 && fits) {
+		vpAssert(fits && raw.cm == 1 && raw.dropMsg == 0, "a message that fits by itself is queued exactly once")
+	}
+	if n >= 100 || (n >= 45 && !fits) {
+		vpAssert(!fits && raw.cm == 0 && raw.dropMsg >= 1, "a message that cannot fit by itself is dropped and reported as dropped")
+	}
+	if retry {
+		vpAssert(raw.cg == 1, "the pending GRAFT retry is queued exactly once")
+		pend := 0
+		for _, g := range gs.control[p].GetGraft() {
+			if g == graft {
+				pend++
+			}
+		}
+		vpAssert(pend == 0, "a GRAFT that was queued is not also kept for another retry (nothing duplicated)")
+	} else {
+		vpAssert(raw.cg == 0, "no GRAFT appears from nowhere")
+	}
+	for j := range ids {
+		want := 0
+		if j < ni {
+			want = 1
+		}
+		vpAssert(raw.ci[j] == want, "every pending IHAVE message ID is queued exactly once")
+	}
+	_, g1 := gs.gossip[p]
+	vpAssert(!g1, "pending gossip is consumed")
+	if n >= 70 {
+		vpCover(msgAlone > limit && queued >= 1, "oversized message dropped, the rest queued")
+	}
+	if n < 100 {
+		vpCover(queued >= 2, "split after piggybacking")
+		vpCover(queued == 1, "fits in one RPC")
+	}
+}
+
+func vpH_C11_sendrpc_retry_gossip() { vpSendRPC(true, 2, 20) }
+func vpHT_C11_sendrpc_retry_gossip3() { vpSendRPC(true, 3, 20) }
+func vpH_C11_sendrpc_gossip()       { vpSendRPC(false, 2, 40) }
+func vpH_C11_sendrpc_retry()        { vpSendRPC(true, 0, 70) }
+func vpH_C11_sendrpc_oversized()    { vpSendRPC(true, 1, 120) }
